@@ -56,6 +56,60 @@ class Fork(Exception):
 
 
 def is_sym(v): return isinstance(v, z3.ExprRef)
+
+
+class PU:
+    """partially undefined integer: bits set in um are undef (and 0 in v); produced by zext/or/shl of an undef narrow value
+    or by a wide load over partly uninitialised bytes (clang packs small structs such as std::optional<char> into one integer)"""
+    __slots__ = ('v', 'um', 'n')
+
+    def __init__(s, v, um, n): s.v = v; s.um = um; s.n = n
+    def __repr__(s): return 'PU(%r,%#x,%d)' % (s.v, s.um, s.n)
+
+
+def pu_norm(v, um, n):
+    full = (1 << n) - 1; um &= full
+    if um == 0: return v
+    if um == full: return None
+    if is_sym(v): v = simp(v & z3.BitVecVal(full & ~um, n))
+    else: v &= full & ~um
+    return PU(v, um, n)
+
+
+def pu_parts(x, n):
+    if x is None: return 0, (1 << n) - 1
+    if isinstance(x, PU): return x.v, x.um
+    return x, 0
+
+
+def pu_binop(op, n, a, b):
+    """bitwise ops / constant shifts on partially undefined operands; None = wholly undefined"""
+    full = (1 << n) - 1
+    if isinstance(a, Ptr) or isinstance(b, Ptr): return None
+    va, ua = pu_parts(a, n); vb, ub = pu_parts(b, n)
+    if op in ('and', 'or', 'xor'):
+        um = ua | ub
+        if op == 'and':
+            if not is_sym(va): um &= ~(~va & full & ~ua) | 0
+            if not is_sym(vb): um &= ~(~vb & full & ~ub) | 0
+            if is_sym(va) or is_sym(vb): r = bv(va, n) & bv(vb, n)
+            else: r = va & vb
+        elif op == 'or':
+            if not is_sym(va): um &= ~(va & ~ua)
+            if not is_sym(vb): um &= ~(vb & ~ub)
+            if is_sym(va) or is_sym(vb): r = bv(va, n) | bv(vb, n)
+            else: r = va | vb
+        else:
+            if is_sym(va) or is_sym(vb): r = bv(va, n) ^ bv(vb, n)
+            else: r = va ^ vb
+        return pu_norm(r, um, n)
+    if op in ('shl', 'lshr') and ub == 0 and not is_sym(vb) and vb < n:
+        if op == 'shl':
+            r = (bv(va, n) << vb) if is_sym(va) else mask(va << vb, n)
+            return pu_norm(r, mask(ua << vb, n), n)
+        r = z3.LShR(bv(va, n), vb) if is_sym(va) else va >> vb
+        return pu_norm(r, ua >> vb, n)
+    return None
 def mask(v, n): return v & ((1 << n) - 1)
 def sgn(v, n): return v - (1 << n) if v >> (n - 1) else v
 def bv(v, n): return v if isinstance(v, z3.ExprRef) else z3.BitVecVal(v, n)
@@ -218,6 +272,7 @@ class Exec:
             if p is None: s.ub(st, '%s through uninitialised pointer' % what)
             if is_sym(p): raise Inconclusive('%s through symbolic integer pointer' % what)
             p = s.i2p(p)
+        if not isinstance(p.obj, tuple) and p.obj == 0 and is_sym(p.off): raise Inconclusive('%s through symbolic integer pointer' % what)
         if isinstance(p.obj, tuple) or p.obj == 0:
             s.ub(st, '%s through null/invalid pointer (%s)' % (what, 'null' if p.obj == 0 and not is_sym(p.off) and p.off == 0 else repr(p)))
         o = st.mem.get(p.obj)
@@ -265,8 +320,19 @@ class Exec:
                 e = simp(z3.Concat(*[bv(c, 8) for c in reversed(cells)]))
                 return s.i2p(e)
             raise Inconclusive('pointer load from mixed bytes')
-        for c in cells:
-            if c is None: return None
+        if any(c is None for c in cells):
+            if not isinstance(ty, IntT) or all(c is None for c in cells) or any(isinstance(c, tuple) for c in cells): return None
+            um = 0; e = None; allc = all(c is None or type(c) is int for c in cells)
+            for k, c in enumerate(cells):
+                if c is None: um |= 255 << (8 * k)
+            if allc:
+                v = 0
+                for k, c in enumerate(cells):
+                    if c is not None: v |= c << (8 * k)
+            else: v = z3.Concat(*[bv(0 if c is None else c, 8) for c in reversed(cells)])
+            if ty.n != n * 8:
+                um = mask(um, ty.n); v = z3.Extract(ty.n - 1, 0, v) if is_sym(v) else mask(v, ty.n)
+            return pu_norm(simp(v) if is_sym(v) else v, um, ty.n)
         allint = True
         for c in cells:
             if type(c) is not int: allint = False; break
@@ -311,6 +377,9 @@ class Exec:
             if n != 8: raise Inconclusive('pointer stored with size %d' % n)
             return [(v, k) for k in range(8)]
         if v is None: return [None] * n
+        if isinstance(v, PU):
+            cells = s.explode(ty, v.v, n)
+            return [None if (v.um >> (8 * k)) & 255 else c for k, c in enumerate(cells)]
         if isinstance(v, int): return [(v >> (8 * k)) & 255 for k in range(n)]
         w = n * 8; vn = v.size()
         e = v if vn == w else z3.ZeroExt(w - vn, v)
@@ -333,7 +402,7 @@ class Exec:
         if is_sym(v):
             # obj<<32 + off with symbolic off: recover when the upper half is concrete
             hi = simp(z3.Extract(63, 32, v))
-            if is_sym(hi): raise Inconclusive('inttoptr of symbolic value')
+            if is_sym(hi): return Ptr(0, v)  # an integer kept in a pointer-typed SSA value (type-punned union member); dereferencing it is inconclusive
             lo = simp(z3.ZeroExt(32, z3.Extract(31, 0, v)))
             return Ptr(hi, lo) if hi else Ptr(0, v)
         hi = v >> 32
@@ -445,7 +514,7 @@ class Exec:
         s.assume(st, z3.Not(cond), m2)
 
     def need(s, st, v, what):
-        if v is None: s.ub(st, 'use of uninitialised value in ' + what)
+        if v is None or isinstance(v, PU): s.ub(st, 'use of uninitialised value in ' + what)
         return v
 
     def truth(s, c):
@@ -602,7 +671,7 @@ class Exec:
     def mval(s, c, x, y, ty):
         """merge two values under condition c (z3 Bool); raises KeyError when not mergeable"""
         if x is y: return x
-        if x is None or y is None: raise KeyError('undef')
+        if x is None or y is None or isinstance(x, PU) or isinstance(y, PU): raise KeyError('undef')
         if isinstance(x, Ptr) or isinstance(y, Ptr):
             if not (isinstance(x, Ptr) and isinstance(y, Ptr)) or x.obj != y.obj or isinstance(x.obj, tuple): raise KeyError('ptr')
             if s.same_ptr(x, y): return x
@@ -711,7 +780,9 @@ class Exec:
         rt = res(ty)
         if isinstance(rt, VecT): raise Inconclusive('vector arithmetic')
         n = rt.n
-        if a is None or b is None: return None
+        if a is None or b is None or isinstance(a, PU) or isinstance(b, PU):
+            if a is None and b is None: return None
+            return pu_binop(op, n, a, b)
         if isinstance(a, Ptr): a = s.p2i(a)
         if isinstance(b, Ptr): b = s.p2i(b)
         asym = is_sym(a); bsym = is_sym(b)
@@ -801,7 +872,7 @@ class Exec:
         return simp(r)
 
     def icmp(s, st, pred, ty, a, b):
-        if a is None or b is None: return None
+        if a is None or b is None or isinstance(a, PU) or isinstance(b, PU): return None
         if isinstance(a, Ptr) or isinstance(b, Ptr):
             if not isinstance(a, Ptr): a = s.i2p(a)
             if not isinstance(b, Ptr): b = s.i2p(b)
@@ -885,7 +956,15 @@ class Exec:
         elif k == 'cast':
             _, d, op, ft, v, tt = ins; x = s.val(st, v, ft); rf, rt = res(ft), res(tt)
             if isinstance(rf, VecT) or isinstance(rt, VecT): raise Inconclusive('vector cast')
-            if x is None: env[d] = None
+            if x is None or isinstance(x, PU):
+                if isinstance(rf, IntT) and isinstance(rt, IntT) and op in ('zext', 'trunc'):
+                    xv, xu = pu_parts(x, rf.n)
+                    if op == 'trunc': xv = (simp(z3.Extract(rt.n - 1, 0, xv)) if is_sym(xv) else mask(xv, rt.n))
+                    elif is_sym(xv): xv = simp(z3.ZeroExt(rt.n - rf.n, xv))
+                    env[d] = pu_norm(xv, xu, rt.n)
+                elif isinstance(x, PU) and op in ('inttoptr', 'ptrtoint', 'bitcast') and isinstance(rf, (IntT, PtrT)) and isinstance(rt, (IntT, PtrT)) and \
+                        (64 if isinstance(rf, PtrT) else rf.n) == (64 if isinstance(rt, PtrT) else rt.n): env[d] = x
+                else: env[d] = None
             elif op == 'zext':
                 if isinstance(x, Ptr): x = s.p2i(x)
                 env[d] = simp(z3.ZeroExt(rt.n - rf.n, x)) if is_sym(x) else x
@@ -914,7 +993,7 @@ class Exec:
                 rt = res(t)
                 if isinstance(av, Ptr) and isinstance(bvv, Ptr) and av.obj == bvv.obj and not isinstance(av.obj, tuple):
                     env[d] = Ptr(av.obj, simp(z3.If(cv == 1, bv(av.off, 64), bv(bvv.off, 64))))
-                elif isinstance(av, (Ptr, list, tuple)) or isinstance(bvv, (Ptr, list, tuple)) or av is None or bvv is None:
+                elif isinstance(av, (Ptr, list, tuple, PU)) or isinstance(bvv, (Ptr, list, tuple, PU)) or av is None or bvv is None:
                     if av is None and bvv is None: env[d] = None
                     else: raise Fork([(cv != 0, av), (cv == 0, bvv)], 'ret')
                 else:
